@@ -91,7 +91,10 @@ theorem convSecond_spec {u0 u1 : TU K} {c : Option K} (h0 : u0.WF)
 
 theorem tempAdd_ok {tab : TTable K} {u0 u1 : TU K} {x0 x1 : K} {r : TU K × K}
     (h : tempAdd tab u0 x0 u1 x1 = .ok r) :
-    ∃ c, convSecond tab u0 u1 = .ok c ∧ r = (preserveUnits tab u0 u1, x0 + applyC c x1) := by
+    ∃ c, convSecond tab u0 u1 = .ok c ∧
+      r = (if (!hasOffset tab u0 && hasOffset tab u1) = true then
+            (preserveUnits tab u0 u1, applyC (c.map fun _ => u0.scale tab / u1.scale tab) x0 + x1)
+          else (preserveUnits tab u0 u1, x0 + applyC c x1)) := by
   unfold tempAdd binaryPrep at h
   split at h
   · rename_i u c hb
@@ -102,8 +105,8 @@ theorem tempAdd_ok {tab : TTable K} {u0 u1 : TU K} {x0 x1 : K} {r : TU K × K}
       · rename_i c' hc
         simp only [Except.ok.injEq, Prod.mk.injEq, Option.some.injEq] at hb
         refine ⟨c', hc, ?_⟩
-        cases h
-        rw [← hb.1, ← hb.2]
+        rw [← hb.1, ← hb.2] at h
+        split at h <;> cases h <;> simp_all
   · cases h
   · cases h
 
